@@ -1313,6 +1313,8 @@ func c11Scenarios(a lib.Args) []c11Scn {
 		mk("delete", short, "present", false, false, "Enabled", false),
 		mk("delete", short, "nullarch", false, false, "Suspended", false), // the archived null version goes with the null delete marker
 		mk("put", short, "nullarch", false, false, "Suspended", false),    // the archived null version is replaced by the new null version
+		mk("delete", short, "nullarch", false, true, "Suspended", false), // sidecar: the attribute directory of the archived null version goes too
+		mk("put", short, "nullarch", false, true, "Suspended", false),
 		mk("put", short, "present", false, true, "", false),
 		mk("delete", short, "present", false, true, "", false), // sidecar: attributes and object removed in separate steps
 		mk("copy", flat, "absent", false, true, "", true),
@@ -1350,11 +1352,6 @@ func c11Scenarios(a lib.Args) []c11Scn {
 					}
 					for _, pre := range pres {
 						if op == "delete" && pre == "absent" {
-							continue
-						}
-						if pre == "nullarch" && sidecar {
-							// Model.Crash.deleteNullVersion has no step for the by-name attributes of the archived
-							// null version (removed with it since 4b1a0ed): the pre-state is run with xattrs only
 							continue
 						}
 						key := []string{flat, short, nested}[r.Intn(3)]
